@@ -128,7 +128,10 @@ type MultisetCombinationIterator struct {
 
 //MultisetCombinations returns an iterator which iterates over all multisets containing k elements and with a maximum of m[i] elements of type i. Value returns the multiset of k items and FreqValue returns a slice v where v[i] is the number of i in the multiset.
 func MultisetCombinations(m []int, k int) *MultisetCombinationIterator {
-	return &MultisetCombinationIterator{state: nil, m: m, k: k}
+	//Create a copy of m in case it changes.
+	tmpM := make([]int, len(m))
+	copy(tmpM, m)
+	return &MultisetCombinationIterator{state: nil, m: tmpM, k: k}
 }
 
 //Value returns the multiset of k elements.
